@@ -121,6 +121,13 @@ Fixpoint g_loop (fuel : nat) (st : list id) (pending : list node) : list node * 
 Definition g_sched (nodes : list node) : list node * list node :=
   g_loop (length nodes) [] nodes.
 
+(** Every node is ready when its turn comes: the list is already in dependency order. *)
+Fixpoint all_ready_in_order (st : list id) (nodes : list node) : bool :=
+  match nodes with
+  | [] => true
+  | n :: r => ready st n && all_ready_in_order (nid n :: st) r
+  end.
+
 (** Observable result of a schedule: the marks printed, or [None] when nodes are left over
     (yaegi: "variable definition loop"; Go: "initialization cycle"). *)
 Definition logs_of (res : list node * list node) : option (list id) :=
@@ -349,8 +356,8 @@ Definition g_pkg_order (g : program) : list id :=
 Definition g_trace (g : program) : option (list id) :=
   trace_along g_order (packages g) (g_pkg_order g).
 
-(** Side condition for the package level: the packages are listed in import-path order and yaegi's
-    depth-first loading order is that very list. *)
+(** Side condition for the package level: the packages are listed in import-path order, every
+    package after the packages it imports, and yaegi's depth-first loading order is that very list. *)
 Fixpoint ascending (l : list id) : bool :=
   match l with
   | x :: ((y :: _) as r) => (x <? y)%N && ascending r
@@ -361,7 +368,19 @@ Definition list_eqb (a b : list id) : bool :=
   (length a =? length b)%nat && forallb (fun xy => N.eqb (fst xy) (snd xy)) (combine a b).
 
 Definition pkgs_in_path_order (g : program) : bool :=
-  ascending (map pk_id (packages g)) && list_eqb (y_pkg_order g) (map pk_id (packages g)).
+  ascending (map pk_id (packages g))
+  && all_ready_in_order [] (map pk_node (packages g))
+  && list_eqb (y_pkg_order g) (map pk_id (packages g)).
+
+(** An acyclic import graph, given by any listing in which every package comes after the packages
+    it imports (and no package is listed twice). *)
+Fixpoint topo_listed (seen : list id) (ps : list package) : bool :=
+  match ps with
+  | [] => true
+  | pk :: r => negb (memb (pk_id pk) seen)
+               && forallb (fun q => memb q seen) (pk_imports pk)
+               && topo_listed (pk_id pk :: seen) r
+  end.
 
 (** Side condition for whole programs. *)
 Definition pkg_side (p : pkg) : bool := decl_sorted p || (plain p && no_skipped_ready p).
